@@ -901,6 +901,19 @@ def e_datetime_ctor(it, args, kwargs, node):
     return SymV(it.fresh('datetime'), 'datetime', origin=('datetime-ctor', list(args), dict(kwargs)), tags=tags)
 
 
+def e_reduce(it, args, kwargs, node):
+    if len(args) == 3 and not kwargs:
+        return it.call_function(it.an.prog.synthetic('reduce3'), list(args), {}, node=node)
+    it.note_unknown(node, 'functools.reduce without an initial value')
+    return UnkV('reduce')
+
+
+def _operator(name):
+    def f(it, args, kwargs, node):
+        return it.call_function(it.an.prog.synthetic(name), list(args), {}, node=node)
+    return f
+
+
 def e_fromisoformat(it, args, kwargs, node):
     v = it.resolve(args[0])
     it.may_raise(ValueError, node, 'fromisoformat', wire='wire' in value_tags(v))
@@ -1127,6 +1140,8 @@ EXT = {
     'struct.unpack': e_struct_unpack, 'struct.pack': e_struct_pack, 'struct.calcsize': e_struct_calcsize,
     'binascii.hexlify': e_hexlify, 'binascii.b2a_hex': e_hexlify,
     'binascii.unhexlify': e_unhexlify, 'binascii.a2b_hex': e_unhexlify,
+    'functools.reduce': e_reduce, 'operator.xor': _operator('op_xor'), 'operator.add': _operator('op_add'),
+    'operator.or_': _operator('op_or'), 'operator.and_': _operator('op_and'),
     'datetime.datetime': e_datetime_ctor, 'datetime.datetime.strptime': e_strptime, 'datetime.datetime.fromisoformat': e_fromisoformat,
     'dateutil.parser.parse': e_dateutil_parse,
     'decimal.Decimal': e_decimal, 're.match': e_re_match, 're.search': e_re_match, 're.fullmatch': e_re_match,
